@@ -49,7 +49,20 @@ PROPS["C18"] = {
     "partial": "OS file semantics",
 }
 
+PROPS["C17"] = {
+    "gen": ["Paths", "FitsTiler", "Study", "Pyramid"],
+    "trusted_base": ["wwt_data_formats XML (de)serialisation of ImageSet/Place; the WWT client's template expansion is modelled as replacing {1},{2},{3} by decimal level, x, y",
+                     "python str(int) = the model's decimal rendering (differentially executed)"],
+    "assumptions": COMMON_ASSUME + ["HiPS output (external hipsgen) is not exercised"],
+    "partial": "",
+}
+
 LEVEL_TEXT = {
+    "C17": {
+        "text": "The two path builders, the scheme strings and the Builder's Url/FileType are obtained on every run by executing the real PyramidIO/Builder on marker strings. Theorems: for both schemes and every supported format, expanding the recorded template at (level,x,y) is exactly the tile path, for all positions; paths are injective in (level,x,y) (decimal rendering injective, digits vs separators); Url = scheme + FileType, FileType = '.'+extension; a study's TileLevels is log2(p2n/256) (from C08); the reuse branch of FitsTiler.tile (shape re-extracted from the source) returns the description in index_rel.wtml in every call history. Every workflow that writes index_rel.wtml is run and its directory tree compared with the expanded template both ways; tile_fits is run through fresh/repeated/override histories.",
+        "note": "trusted: Lean kernel; marker-string extraction; wwt_data_formats; the harness. The history theorem is over a three-branch model of FitsTiler.tile whose branch facts are re-extracted; that the restored Builder equals the written one field-by-field is checked by execution.",
+        "technique": "Lean 4 proof over runtime-extracted path tables + workflow execution",
+    },
     "C18": {
         "text": "The reorder statements of PipelineManager.publish are translated from the source on every run; theorems: for every listing containing index.wtml the transfer list is a permutation with index.wtml last; for every file set, every sequence of publish invocations (any listing order each, interrupted before/inside/after any transfer or before the rename) the store never holds an index.wtml whose companions are missing or incomplete, a moved image is completely stored, an uninterrupted re-run completes, refresh never skips a partially published image. The same theorem for in-place writes is refuted by a two-interruption witness (the defect fixed in e99729d). The model is run against the real PipelineManager + LocalPipelineIo under fault injection over all listing orders.",
         "note": "trusted: Lean kernel; the list-statement translator; the fault-injection harness (faults = exceptions raised around put_item, a half-delivered source, a failing rename); OS atomicity of os.replace.",
